@@ -340,9 +340,40 @@ func alignKey(n *inspect.Node) string {
 	}
 	switch n.Local {
 	case "p", "r", "tc", "tr", "t":
-		return n.Name() + "\x00" + inspect.Hash(n.InnerText())
+		return n.Name() + "\x00" + inspect.Hash(shapeAndText(n))
 	}
 	return n.Name()
+}
+
+// shapeAndText is what two elements must share to be lined up by the first alignment pass: the names of all
+// descendant elements in document order and the character data that is content (everything inside text-bearing
+// elements verbatim, elsewhere only non-blank data). Layout whitespace between elements takes no part: with it
+// (the key used to be the raw inner text), a run that lost one child lined up with a neighbouring run that happened
+// to have as many line breaks (Appendix B9).
+func shapeAndText(n *inspect.Node) string {
+	var b strings.Builder
+	var rec func(x *inspect.Node, sig bool)
+	rec = func(x *inspect.Node, sig bool) {
+		if x.Local == "" {
+			if sig || strings.TrimSpace(x.Text) != "" {
+				b.WriteString(x.Text)
+			}
+			return
+		}
+		b.WriteByte('<')
+		b.WriteString(x.Name())
+		b.WriteByte('>')
+		s := textSignificant(x)
+		for _, k := range x.Kids {
+			rec(k, s)
+		}
+	}
+	if n != nil {
+		for _, k := range n.Kids {
+			rec(k, textSignificant(n))
+		}
+	}
+	return b.String()
 }
 
 func treeDiffAll(a, b *inspect.Node, at string, out *[][2]string, seen map[string]bool) {
